@@ -297,9 +297,9 @@ def meaningful3(names):
         s = n.replace("BYTECODE_", "")
         if s == "INT":
             use[i] = 1
-        elif s in ("ID_LOCAL", "SLIDE"):
+        elif s in ("ID_LOCAL", "SLIDE", "VECREF_VEC_DEREF"):
             use[i] = 2
-        elif s in ("JUMPZ", "JUMP", "MARK", "ID_GLOBAL", "GLOBAL_VEC", "ID_FUNC_ADDR", "BUILD_IN", "CLEAR_STACK",
+        elif s in ("JUMPZ", "JUMP", "MARK", "ID_GLOBAL", "GLOBAL_VEC", "ID_FUNC_ADDR", "BUILD_IN", "CLEAR_STACK", "RECORD",
                    "ALLOC", "REWRITE", "MK_INIT_ARRAY", "ARRAYREF_DEREF"):   # COPYGLOB, FUNC_OBJ, CALL … have no operand
             use[i] = 1
         else:
@@ -337,8 +337,8 @@ def parse_model3(path):
 
 
 def run_compiletie3(ctx, n, seed, level=3, keep=None):
-    engine, runner = ("compile4", RUN4) if level in (4, 7) else ("compile3", RUN3)    # level 7 = level 4 + int arrays
-    if not (level in (4, 7) and os.environ.get("COMPILETIE_RUN4")):
+    engine, runner = ("compile4", RUN4) if level in (4, 7, 8) else ("compile3", RUN3)    # level 7 = level 4 + int arrays, 8 = 7 + records
+    if not (level in (4, 7, 8) and os.environ.get("COMPILETIE_RUN4")):
         ok, log = common.ocaml_build(engine)
         if not ok or not os.path.exists(runner):
             ctx.correspondence_broken("compile-engine-build", log[-2000:])
